@@ -6,6 +6,7 @@ import (
 	"net"
 	"strconv"
 
+	"github.com/fatedier/frp/server/ports"
 	"github.com/fatedier/frp/verif"
 )
 
@@ -17,6 +18,37 @@ const (
 //verif:guarded TCPGroupCtl mu groups
 //verif:guarded TCPGroup mu group groupKey addr port realPort acceptCh tcpLn lns
 
+// Monitor invariant of the tcp group table: the map exists; every registered
+// group is wired to this controller.
+//
+//verif:invariant TCPGroupCtl mu
+func (tgc *TCPGroupCtl) verifInvGroups(name string) bool {
+	g, ok := tgc.groups[name]
+	return tgc.groups != nil && (!ok || (g != nil && g.ctl == tgc))
+}
+
+//verif:contract ~/server/group.NewTCPGroupCtl
+//verif:props C13
+func verif_NewTCPGroupCtl(pm *ports.Manager, name string) {
+	tgc := NewTCPGroupCtl(pm)
+	verif.Ensures(tgc != nil && tgc.verifInvGroups(name) && tgc.portManager == pm, "establishes_invariant")
+}
+
+// The controller looks the group up (creating and registering it when absent)
+// and lets the group decide; the result is the group's.
+//
+//verif:contract (*~/server/group.TCPGroupCtl).Listen
+//verif:props C09 C13
+func verif_TCPGroupCtl_Listen(tgc *TCPGroupCtl, proxyName string, group string, groupKey string, addr string, port int) {
+	verif.ResetEvents()
+	l, realPort, err := tgc.Listen(proxyName, group, groupKey, addr, port)
+	verif.Ensures(verif.CallCount("TCPGroup).Listen") == 1, "delegates_once")
+	verif.Ensures(verif.CalledWith("TCPGroup).Listen", 2, group) && verif.CalledWith("TCPGroup).Listen", 3, groupKey) &&
+		verif.CalledWith("TCPGroup).Listen", 4, addr) && verif.CalledWith("TCPGroup).Listen", 5, port), "passes_request_unchanged")
+	verif.Ensures(realPort == verif.RetInt("TCPGroup).Listen", 1) && err == verif.RetErr("TCPGroup).Listen", 2), "returns_group_result")
+	verif.Ensures(err != nil || l != nil, "success_has_listener")
+}
+
 // First member of a tcp group: the group listens on exactly the port it
 // acquired and reports that port (C09); a failure after the acquisition gives
 // the port back (C09/C10). Later members join only with the same group name,
@@ -27,7 +59,6 @@ const (
 func verif_TCPGroup_Listen(tg *TCPGroup, proxyName string, group string, groupKey string, addr string, port int) {
 	n0 := len(tg.lns)
 	g0, k0, a0, p0, rp0 := tg.group, tg.groupKey, tg.addr, tg.port, tg.realPort
-	verif.Requires(tg.ctl != nil && tg.ctl.portManager != nil, "wired")
 	verif.ResetEvents()
 	ln, realPort, err := tg.Listen(proxyName, group, groupKey, addr, port)
 	if n0 == 0 {
